@@ -337,6 +337,13 @@ def builtin_call(ex, ev: Eval, node, fname):
         return V(NONE, z3.BoolVal(True))
     if fname == "sorted" and len(a) == 1:
         return do_sorted(ex, ev, node)
+    if fname in ("heappush", "heappop", "heapify") and a:
+        h = ev.expr(a[0])
+        if isinstance(h.t, TU) and h.t.uname == "opaque":  # heap contents are not interpreted
+            for x in a[1:]:
+                ev.expr(x)
+            return ex.new_sym(h.t, "heap", ev.st)
+        raise Unsupported("heap operation on a modelled list")
     if fname == "callable" and len(a) == 1:
         return ex.new_sym(BOOL, "callable", ev.st)
     if fname in ("exp", "log", "sqrt") and len(a) == 1:
